@@ -245,6 +245,18 @@ theorem stream_limit_rejected (e : Endpoint) (k : FrameKind) (s a b : Nat) (fin 
   simp only [hc, Endpoint.step, hg, Endpoint.acceptSid, hs, ekOf]
 
 open GmQuic.StreamRules GmQuic.Sid in
+/-- non-vacuity: a server that advertised 1 bidirectional stream receives STREAM on client-initiated stream 400 -/
+example : ∃ e, Endpoint.new .server 1 1 1 1 ⟨10, 10, 10⟩ .demand = some e ∧
+    codeGate .stream (sidRole 400 != e.role) (sidDir 400) = .accept ∧ e.rem.poisoned = false ∧
+    sidRole 400 = e.rem.role ∧ sidIdx 400 > e.rem.max.get (sidDir 400) := by
+  refine ⟨_, rfl, ?_⟩
+  decide
+
+open GmQuic.StreamRules GmQuic.Sid in
+/-- non-vacuity: a client receives STREAM on its own unidirectional stream 2 -/
+example : codeGate .stream (sidRole 2 != Role.client) (sidDir 2) = .streamState := by decide
+
+open GmQuic.StreamRules GmQuic.Sid in
 /-- frames for the wrong half of a unidirectional stream ⇒ STREAM_STATE_ERROR, nothing created -/
 theorem stream_state_rejected (e : Endpoint) (k : FrameKind) (s a b : Nat) (fin : Bool)
     (hg : codeGate k (sidRole s != e.role) (sidDir s) = .streamState) :
